@@ -109,6 +109,39 @@ def parse_under_error_filter(text, user_models=(), include_cc=True):
     return p
 
 
+def parse_after_an_interrupted_parse(ctx, text, user_models=(), include_cc=True):
+    """A fresh object whose first parse() is abandoned at a random line of the library's own code (trace.Failpoint: an exception that does not derive
+    from Exception, as when the user presses Ctrl-C), and which is then parsed again in the ordinary way.  -> parser, or None when the second
+    parse() raised (a loud failure after an interruption is not judged; a quietly different table is)."""
+    from decaylanguage import DecFileParser  # noqa: PLC0415
+
+    from . import trace  # noqa: PLC0415
+
+    def fresh():
+        q = DecFileParser.from_string(text)
+        if user_models:
+            q.load_additional_decay_models(*user_models)
+        return q
+
+    def parse(q):
+        with warnings.catch_warnings():
+            warnings.simplefilter("ignore")
+            q.parse(include_cc) if include_cc is not True else q.parse()
+
+    fp = trace.Failpoint.get()
+    _, n = fp.count(parse, fresh())
+    q = fresh()
+    status, where = fp.inject(ctx.rng.randint(1, max(1, n)), parse, q)
+    ctx.hit("parse-abandoned-at-a-random-line:" + status)
+    try:
+        parse(q)
+    except Exception:  # noqa: BLE001
+        ctx.hit("parse-again-after-an-abandoned-parse:raised:not-judged")
+        return None
+    ctx.hit("parse-again-after-an-abandoned-parse:answered")
+    return q
+
+
 def params_canon(mp):
     return [] if (mp == "" or mp is None) else list(mp)
 
